@@ -30,6 +30,9 @@ Do(s) ==
          /\ s.k \in begun /\ s.k \notin ran /\ s.k \notin refused      \* exactly-once, never a refused task
          /\ ~complete                                                  \* nothing runs after shutdown completed
          /\ ran' = ran \cup {s.k} /\ UNCHANGED <<cfg, begun, accepted, refused, complete>> /\ ev' = s
+    [] s.op = "settled" ->    \* the driver vouches: the pool is running, no Submit is in flight and it has been left alone for two
+         /\ accepted \subseteq ran                                    \* seconds - every accepted task has been started by then
+         /\ UNCHANGED <<cfg, begun, accepted, refused, ran, complete>> /\ ev' = s
     [] s.op = "complete" ->   \* Shutdown(); ShutdownComplete.Wait() returned; s.pending = counter value read afterwards
          /\ s.pending = 0
          /\ complete' = TRUE /\ UNCHANGED <<cfg, begun, accepted, refused, ran>> /\ ev' = s
